@@ -44,6 +44,7 @@ def obligations(tier):
               "table; open() only for ids made of digits and '/' starting with a digit; delivery only for a regular file owned by the queue user; no descriptor leak",
         expect_witnesses=lambda p: ["delnum_too_big_refused"] + (["bad_messid_refused"] if p["ML"] >= 1 else [])
                          + (["refused_after_open", "delivery_started", "slot_reused"] if p["ML"] >= 1 and p["RL"] >= 3 else []), **SPAWN_COMMON)
+    NS3 = False     # three slots: enabled once measured
     spawn_main = Obl("spawn_main", "spawnmain.c", progs=[Prog("spawn.c", main_as="spawn_main", cut=["getcmd"])],
         repo=["stralloc_opys.c", "stralloc_opyb.c", "stralloc_cats.c", "stralloc_catb.c", "byte_copy.c", "byte_rchr.c", "open_read.c",
               "wait_nohang.c", "substdio.c"],
@@ -51,7 +52,7 @@ def obligations(tier):
         sysrename=["read", "close", "select", "waitpid", "_exit", "sleep", "chdir"],
         # measured: K=4 150 s, K=5 445 s (both under load)
         grid=[{"NS": 2, "K": k, "OL": 2, "TR": tr} for (k, tr) in (((4, 0),) if tier == "quick" else ((4, 3000), (5, 0)))]
-             + ([] if tier == "quick" else [{"NS": 3, "K": 4, "OL": 1, "TR": 0}]),
+             + ([{"NS": 3, "K": 4, "OL": 1, "TR": 0}] if NS3 else []),
         unwind=lambda p: {"spawn_main~for (;;)": p["K"] + 2, "sigchld~while": p["NS"] + 2},
         # FD_ZERO is a 16-iteration loop
         unwind_default=18, timeout=900 if tier == "quick" else 3000,
